@@ -153,6 +153,10 @@ class C09(runner.Prop):
                     ctx.fail('common_suffix/accessor_paths', f'{[x.path for x in accs]!r}')
                 if gen.contains_tag(case['trees'][0], ('cn', 'cs', 'cm', 'cp', 'dc', 'partial')):
                     ctx.label('custom_entries_in_operand')
+                # the result carries the operands' flags: a namespace recorded by either operand, their none_is_leaf
+                if S.namespace != (A.namespace or B.namespace) or S.none_is_leaf != A.none_is_leaf:
+                    ctx.fail('common_suffix/attributes', f'namespace {S.namespace!r} none_is_leaf {S.none_is_leaf}; '
+                                                         f'A: {A.namespace!r} {A.none_is_leaf} B: {B.namespace!r}')
                 # S keeps the receiver's own node types and key order (and the argument's below the receiver's
                 # leaves): an order-aware comparison of what S rebuilds with what the model's lub rebuilds
                 marks = [U.Leaf(i) for i in range(S.num_leaves)]
